@@ -212,7 +212,14 @@ def run(tier, replay):
     got = (st["parts"]["sha1"]["mismatches"], st["parts"]["b64_dec_texts"]["mismatches"], st["parts"]["date_days"]["mismatches"])
     if got[0] != 1 or got[1] != 1 or got[2] < 3:
         raise vlib.ToolError("binding self-test: corrupted vectors were not rejected as expected: %s" % (got,))
-    small = [r for r in recs if r["k"] != "date"][:40] + [r for r in recs if r["k"] == "date"][:3]
+    small = []
+    for kind, cnt in (("sha1", 2), ("b64e", 8), ("b64d", 8), ("pe", 8), ("pd", 8), ("date", 3)):
+        of_kind = [r for r in recs if r["k"] == kind]
+        if kind == "sha1":
+            of_kind.sort(key=lambda r: r["n"])
+        if kind == "b64e":
+            of_kind = [r for r in of_kind if len(r["b"]) >= 4]
+        small += copy.deepcopy(of_kind[:cnt])
     idx = next(i for i, r in enumerate(small) if r["k"] == "b64e" and len(r["b"]) >= 4)
     small[idx] = dict(small[idx], b=[small[idx]["b"][0] ^ 1] + small[idx]["b"][1:])
     vlib.write_lines(tr, small)
